@@ -160,12 +160,12 @@ theorem oldOf_trimmed_getElem? (ls : List PatchLine) (pf sf : Nat) (hp : pf ≤ 
 theorem hunkMatchesAt_iff (content : List Line) (h : Hunk) (iw : Bool) (pf sf p : Nat)
     (hp : pf ≤ prefixCtx h.lines) (hs : sf ≤ suffixCtx h.lines) (hl : pf + sf ≤ h.lines.length) :
     hunkMatchesAt content h iw pf sf p = true ↔
-      p + (oldOf h.lines).length ≤ content.length ∧
+      p + (oldOf h.lines).length ≤ content.length + sf ∧
       ∀ j, j < (oldOf h.lines).length → j < pf ∨ (oldOf h.lines).length - sf ≤ j ∨
         ∃ a b, content[p + j]? = some a ∧ (oldOf h.lines)[j]? = some b ∧ lineEqB iw a b = true := by
   unfold hunkMatchesAt
   rw [oldLineCount_eq]
-  by_cases hfit : p + (oldOf h.lines).length > content.length
+  by_cases hfit : p + (oldOf h.lines).length > content.length + sf
   · simp only [hfit, if_true]
     constructor
     · intro hf; cases hf
@@ -200,7 +200,7 @@ theorem admissibleB_iff (file : List Line) (h : Hunk) (iw : Bool) (maxFuzz : Int
     admissibleB file h iw maxFuzz p f = true ↔
       (f : Int) ≤ maxFuzz ∧ f ≤ max (prefixCtx h.lines) (suffixCtx h.lines) ∧
       (fuzzPair h.lines f).1 + (fuzzPair h.lines f).2 < h.lines.length ∧
-      p + (oldOf h.lines).length ≤ file.length ∧
+      p + (oldOf h.lines).length ≤ file.length + (fuzzPair h.lines f).2 ∧ p < file.length ∧
       ∀ j, j < (oldOf h.lines).length →
         j < (fuzzPair h.lines f).1 ∨ (oldOf h.lines).length - (fuzzPair h.lines f).2 ≤ j ∨
         ∃ a b, file[p + j]? = some a ∧ (oldOf h.lines)[j]? = some b ∧ lineEqB iw a b = true := by
@@ -208,8 +208,8 @@ theorem admissibleB_iff (file : List Line) (h : Hunk) (iw : Bool) (maxFuzz : Int
   simp only [Bool.and_eq_true, decide_eq_true_eq, List.all_eq_true, List.mem_range, Bool.or_eq_true,
     and_assoc, or_assoc]
   constructor
-  · rintro ⟨a, b, c, d, e⟩
-    refine ⟨a, b, c, d, fun j hj => ?_⟩
+  · rintro ⟨a, b, c, d, d', e⟩
+    refine ⟨a, b, c, d, d', fun j hj => ?_⟩
     rcases e j hj with h1 | h1 | h1
     · exact Or.inl h1
     · exact Or.inr (Or.inl h1)
@@ -217,8 +217,8 @@ theorem admissibleB_iff (file : List Line) (h : Hunk) (iw : Bool) (maxFuzz : Int
       split at h1
       · next a b ea eb => exact ⟨a, b, ea, eb, h1⟩
       · cases h1
-  · rintro ⟨a, b, c, d, e⟩
-    refine ⟨a, b, c, d, fun j hj => ?_⟩
+  · rintro ⟨a, b, c, d, d', e⟩
+    refine ⟨a, b, c, d, d', fun j hj => ?_⟩
     rcases e j hj with h1 | h1 | ⟨a, b, ea, eb, h1⟩
     · exact Or.inl h1
     · exact Or.inr (Or.inl h1)
@@ -234,14 +234,68 @@ theorem fuzzPair_snd (ls : List PatchLine) (f : Nat) :
 /-- under the side conditions on the fuzz, the probe of the scan is the placement spec -/
 theorem hunkMatchesAt_iff_admissibleB (file : List Line) (h : Hunk) (iw : Bool) (maxFuzz : Int) (p f : Nat)
     (h1 : (f : Int) ≤ maxFuzz) (h2 : f ≤ max (prefixCtx h.lines) (suffixCtx h.lines))
-    (h3 : (fuzzPair h.lines f).1 + (fuzzPair h.lines f).2 < h.lines.length) :
+    (h3 : (fuzzPair h.lines f).1 + (fuzzPair h.lines f).2 < h.lines.length) (hlt : p < file.length) :
     hunkMatchesAt file h iw (fuzzPair h.lines f).1 (fuzzPair h.lines f).2 p = true ↔
       admissibleB file h iw maxFuzz p f = true := by
   rw [admissibleB_iff, hunkMatchesAt_iff file h iw _ _ p
     (by rw [fuzzPair_fst]; omega) (by rw [fuzzPair_snd]; omega) (by omega)]
   constructor
-  · intro ⟨a, b⟩; exact ⟨h1, h2, h3, a, b⟩
-  · intro ⟨_, _, _, a, b⟩; exact ⟨a, b⟩
+  · intro ⟨a, b⟩; exact ⟨h1, h2, h3, a, hlt, b⟩
+  · intro ⟨_, _, _, a, _, b⟩; exact ⟨a, b⟩
+
+/-! ### D99: what of an admissible placement lies beyond the end of the file is context -/
+
+theorem filter_nplus_of_all_SP (xs : List PatchLine) (h : ∀ x ∈ xs, (x.op == SP) = true) :
+    xs.filter (·.op != PLUS) = xs := by
+  apply List.filter_eq_self.2
+  intro x hx
+  have hx : x.op = SP := by simpa using h x hx
+  rw [hx]; decide
+
+theorem old_ignored_SP_aux (A M B : List PatchLine) (hA : ∀ x ∈ A, (x.op == SP) = true)
+    (hB : ∀ x ∈ B, (x.op == SP) = true) (k : Nat)
+    (hk : k < A.length ∨ (oldOf (A ++ (M ++ B))).length - B.length ≤ k) (pl : PatchLine)
+    (h : ((A ++ (M ++ B)).filter (·.op != PLUS))[k]? = some pl) : pl.op = SP := by
+  have hlen : (oldOf (A ++ (M ++ B))).length = A.length + (M.filter (·.op != PLUS)).length + B.length := by
+    simp only [oldOf, List.length_map, List.filter_append, List.length_append,
+      filter_nplus_of_all_SP A hA, filter_nplus_of_all_SP B hB]
+    omega
+  rw [List.filter_append, List.filter_append, filter_nplus_of_all_SP A hA, filter_nplus_of_all_SP B hB] at h
+  rcases hk with hk | hk
+  · rw [List.getElem?_append_left hk] at h
+    simpa using hA pl (List.mem_of_getElem? h)
+  · rw [hlen] at hk
+    rw [List.getElem?_append_right (by omega), List.getElem?_append_right (by omega)] at h
+    simpa using hB pl (List.mem_of_getElem? h)
+
+/-- an old-side line which fuzz ignores (one of the first `pf` or of the last `sf`) is a context line -/
+theorem old_ignored_SP (ls : List PatchLine) (pf sf : Nat) (hp : pf ≤ prefixCtx ls) (hs : sf ≤ suffixCtx ls)
+    (hl : pf + sf ≤ ls.length) (k : Nat) (hk : k < pf ∨ (oldOf ls).length - sf ≤ k) (pl : PatchLine)
+    (h : (ls.filter (·.op != PLUS))[k]? = some pl) : pl.op = SP := by
+  have e := split_trimmed ls pf sf hl
+  have hA : (ls.take pf).length = pf := by rw [List.length_take]; omega
+  have hB : (ls.drop (ls.length - sf)).length = sf := by rw [List.length_drop]; omega
+  refine old_ignored_SP_aux (ls.take pf) (trimmed ls pf sf) (ls.drop (ls.length - sf))
+    (all_SP_take ls pf hp) (all_SP_drop ls sf hs) k ?_ pl ?_
+  · rw [← e, hA, hB]; exact hk
+  · rw [← e]; exact h
+
+/-- the old-side lines of an admissible placement which have no line of the file under them are context lines
+    (they are among those at the end of the hunk which fuzz ignores) -/
+theorem admissible_beyond_SP (file : List Line) (h : Hunk) (iw : Bool) (maxFuzz : Int) (p f : Nat)
+    (hadm : admissibleB file h iw maxFuzz p f = true) (k : Nat) (hk : file.length ≤ p + k) (pl : PatchLine)
+    (hpl : (h.lines.filter (·.op != PLUS))[k]? = some pl) : pl.op = SP := by
+  obtain ⟨_, a2, a3, _, _, hall⟩ := (admissibleB_iff file h iw maxFuzz p f).1 hadm
+  have hklt : k < (oldOf h.lines).length := by
+    have := (List.getElem?_eq_some_iff.1 hpl).1
+    simpa [oldOf] using this
+  refine old_ignored_SP h.lines (fuzzPair h.lines f).1 (fuzzPair h.lines f).2
+    (by rw [fuzzPair_fst]; omega) (by rw [fuzzPair_snd]; omega) (by omega) k ?_ pl hpl
+  rcases hall k hklt with h1 | h1 | ⟨a, _, ea, _, _⟩
+  · exact Or.inl h1
+  · exact Or.inr h1
+  · have := (List.getElem?_eq_some_iff.1 ea).1
+    omega
 
 /-! ### candidate positions -/
 
@@ -352,15 +406,12 @@ theorem locateHunk_eq_loop (file : List Line) (h : Hunk) (iw : Bool) (offset max
   unfold locateHunk
   simp only [hc, if_false]
 
-/-- under `Hunk.WF`, a hunk with a non-zero old count has a non-empty old side, so an admissible position is inside the file -/
+/-- an admissible position is inside the file (since D99 part of `admissibleB` itself; the hypotheses on the hunk are kept for the callers) -/
 theorem admissible_lt_length (file : List Line) (h : Hunk) (iw : Bool) (maxFuzz : Int) (p f : Nat)
-    (hwf : h.WF) (hc : h.old.count ≠ 0) (hadm : admissibleB file h iw maxFuzz p f = true) :
+    (_hwf : h.WF) (_hc : h.old.count ≠ 0) (hadm : admissibleB file h iw maxFuzz p f = true) :
     p < file.length := by
-  obtain ⟨_, _, _, hfit, _⟩ := (admissibleB_iff file h iw maxFuzz p f).1 hadm
-  have h1 := hwf.2.1
-  have : (oldOf h.lines).length ≠ 0 := by
-    intro e; rw [e] at h1; exact hc h1
-  omega
+  obtain ⟨_, _, _, _, hlt, _⟩ := (admissibleB_iff file h iw maxFuzz p f).1 hadm
+  exact hlt
 
 /-- everything a successful `locate_hunk` tells (old side present): the returned position is admissible with
     the returned fuzz, and no candidate position is admissible with a smaller fuzz -/
@@ -375,12 +426,12 @@ theorem locateHunk_some (file : List Line) (h : Hunk) (iw : Bool) (offset maxFuz
   have hf1 : (f : Int) ≤ maxFuzz := by omega
   have hf2 : f ≤ max (prefixCtx h.lines) (suffixCtx h.lines) := by omega
   refine ⟨p, f, e, hmem.1, hmem.2, ?_, ?_⟩
-  · exact (hunkMatchesAt_iff_admissibleB file h iw maxFuzz p f hf1 hf2 h2).1 h4
+  · exact (hunkMatchesAt_iff_admissibleB file h iw maxFuzz p f hf1 hf2 h2 hmem.2).1 h4
   · intro p' f' hp1 hp2 hadm
     apply Nat.le_of_not_lt
     intro hlt
     obtain ⟨a1, a2, a3, _, _⟩ := (admissibleB_iff file h iw maxFuzz p' f').1 hadm
-    have hm := (hunkMatchesAt_iff_admissibleB file h iw maxFuzz p' f' a1 a2 a3).2 hadm
+    have hm := (hunkMatchesAt_iff_admissibleB file h iw maxFuzz p' f' a1 a2 a3 hp2).2 hadm
     have := h5 f' (Nat.zero_le _) hlt p' ((mem_candidates_searchStart _ ml file.length p').2 ⟨hp1, hp2⟩)
     rw [fuzzPair_fst, fuzzPair_snd] at hm
     rw [hm] at this
@@ -393,7 +444,7 @@ theorem locateHunk_complete (file : List Line) (h : Hunk) (iw : Bool) (offset ma
     ∃ loc, locateHunk file h iw offset maxFuzz ml = some loc := by
   rw [locateHunk_eq_loop file h iw offset maxFuzz ml hc]
   obtain ⟨a1, a2, a3, _, _⟩ := (admissibleB_iff file h iw maxFuzz p f).1 hadm
-  have hm := (hunkMatchesAt_iff_admissibleB file h iw maxFuzz p f a1 a2 a3).2 hadm
+  have hm := (hunkMatchesAt_iff_admissibleB file h iw maxFuzz p f a1 a2 a3 hlt).2 hadm
   rw [fuzzPair_fst, fuzzPair_snd] at hm a3
   exact locateLoop_complete _ _ _ _ _ _ _ _ _ 0 f p (Nat.zero_le _) (by omega) (by omega) a3
     ((mem_candidates_searchStart _ ml file.length p).2 ⟨hp, hlt⟩) hm
@@ -405,7 +456,7 @@ theorem locateHunk_exact (file : List Line) (h : Hunk) (iw : Bool) (offset maxFu
     locateHunk file h iw offset maxFuzz ml = some ⟨g, 0, 0⟩ := by
   rw [locateHunk_eq_loop file h iw offset maxFuzz ml hc, hg]
   obtain ⟨a1, a2, a3, _, _⟩ := (admissibleB_iff file h iw maxFuzz g 0).1 hadm
-  have hmt := (hunkMatchesAt_iff_admissibleB file h iw maxFuzz g 0 a1 a2 a3).2 hadm
+  have hmt := (hunkMatchesAt_iff_admissibleB file h iw maxFuzz g 0 a1 a2 a3 hlt).2 hadm
   rw [fuzzPair_fst, fuzzPair_snd] at hmt a3
   rw [locateLoop]
   simp only
